@@ -460,6 +460,11 @@ class Module(HasAccessibles):
                 self.errors.append(f"'{name}' has no property '{propname}'")
             except BadValueError as e:
                 self.errors.append(f'{name}.{propname}: {str(e)}')
+            if (isinstance(accessible, Parameter) and not accessible.readonly
+                    and not hasattr(self, 'write_' + name)):
+                # the write wrapper is created together with the class
+                self.errors.append(f'{name} can not be configured with readonly=False: '
+                                   f'{type(self).__bases__[0].__name__} has no write access to it')
         # register the exported name only now: 'export' might be changed by cfg
         if not self.export:  # do not export parameters of a module not exported
             accessible.export = False
